@@ -113,6 +113,16 @@ var spellFamily = func() map[string]string {
 	return m
 }()
 
+// effective returns the class that really applies to the name: a spelling
+// that leaves this particular name unchanged (no k or s to fold, say) is the
+// canonical one.
+func effective(s spellClass, name string) spellClass {
+	if s.f != nil && s.class != "canonical" && s.f(name) == name {
+		return spellings[0]
+	}
+	return s
+}
+
 func spellingsFor(where string) []spellClass {
 	var out []spellClass
 	for _, s := range spellings {
@@ -172,6 +182,7 @@ func reqConfigSpelled(s spellClass, names ...string) Req {
 }
 
 func reqUserSpelled(method string, s spellClass, name, body string) Req {
+	s = effective(s, name)
 	rq := Req{Route: method + " /admin/users/{{name}}", Method: method, Path: "/admin/users/" + pathSegment(s, name), Auth: "admin", Spelling: s.class}
 	if body != "" {
 		rq.Header = hdr("Content-Type", jsonCT)
@@ -181,6 +192,7 @@ func reqUserSpelled(method string, s spellClass, name, body string) Req {
 }
 
 func reqDSNSpelled(s spellClass, name, tail string) Req {
+	s = effective(s, name)
 	route := "GET /dsns/{{dsn}}/" + tail
 	return Req{Route: route, Method: "GET", Path: "/dsns/" + pathSegment(s, name) + "/" + tail, Auth: "admin", Spelling: s.class}
 }
